@@ -48,6 +48,15 @@ func writeReplay(v *Violation) {
 
 func runE2(t *testing.T, prop string) {
 	pf := profiles[prop]
+	if tier() == "thorough" {
+		// deeper programs in the thorough tier (the checker handles up to 64 events)
+		cp := *pf
+		cp.opsMax++
+		if cp.thrMax < 4 {
+			cp.thrMax = 4
+		}
+		pf = &cp
+	}
 	cfg := sweepFor(prop)
 	rapid.Check(t, func(rt *rapid.T) {
 		p := genProgram(rt, pf)
